@@ -258,6 +258,8 @@ func (fr *frame) havocCall(sig *types.Signature, args []Val, argTypes []types.Ty
 			for j, f := range si.fields {
 				vc.writeField(st, a.t, si, j, vc.fresh("hv_"+f.name, f.sort))
 			}
+		} else if _, isStruct := types.Unalias(pt.Elem()).Underlying().(*types.Struct); isStruct || isCollection(pt.Elem()) {
+			// opaque external struct or a collection handle: its content is not modelled
 		} else {
 			s := reg.sortOf(pt.Elem())
 			if _, isArr := types.Unalias(pt.Elem()).Underlying().(*types.Array); !isArr {
@@ -397,6 +399,11 @@ func (fr *frame) applyContract(ct *Contract, key string, sig *types.Signature, a
 			continue
 		}
 		vc.assume(alive, te2.formula(cl.E))
+	}
+	for _, sd := range ct.SetsPost {
+		if _, ok := vc.eng.specs.ghostSort[sd.Name]; ok {
+			vc.ghostSet(st, sd.Name, te2.term(sd.E).t)
+		}
 	}
 	if ct.PureVerdict != "" {
 		if ei := errResultIndex(sig); ei >= 0 && ei < len(rvals) {
